@@ -316,6 +316,10 @@ class PythonToIrCompiler:
         increment_block = self.builder.new_block()
         final_block = self.builder.new_block()
 
+        # The looping variable keeps its last value after the loop:
+        i_var = self.get_variable(
+            statement.target, statement.target.id, ty=ir.i64
+        )
         self.emit(ir.Jump(test_block))
 
         # Test block:
@@ -324,12 +328,10 @@ class PythonToIrCompiler:
         i_phi.set_incoming(entry_block, i_init)
         self.emit(ir.CJump(i_phi, "<", n2, body_block, final_block))
 
-        # Publish looping variable:
-        self.local_map[statement.target.id] = Var(i_phi, False, ir.i64)
-
         # Body:
         self.enter_loop(increment_block, final_block)
         self.builder.set_block(body_block)
+        self.emit(ir.Store(i_phi, i_var.value))
         self.gen_statement(statement.body)
         self.builder.emit_jump(increment_block)
         self.leave_loop()
